@@ -53,6 +53,8 @@ def check(run, driver):
         metric = METRICS[it % 3]
         mix = rng.standard_normal((dx + dy + dz, dx + dy + dz)) * (it % 4 != 0) + np.eye(dx + dy + dz)
         W = rng.standard_normal((N, dx + dy + dz)) @ mix * float(10 ** rng.uniform(-2, 2))
+        if it % 11 == 7:    # data recorded in very small units (nanometres in metres, picoamperes in amperes): spacings 1e-15..1e-11 -- exact in the rational model
+            W = W * float(10 ** rng.uniform(-13, -10))
         if it % 5 >= 3:     # data that are not mean-centred: large common offset relative to the spread (both paths, Euclidean metric)
             metric = "euclidean"
             if it % 5 == 3:
@@ -103,6 +105,63 @@ def check(run, driver):
         run.case("kde", [N, dx, dy, dz, str(bw), kind, float(W[0, 0])], N >= 10, sample={k_: case[k_] for k_ in ("N", "dx", "bandwidth", "kind")} | {"impl": val})
         meta.append(("kde", case, val))
         reqs.append({"op": "kde", "rule": bw if isinstance(bw, str) else "numeric", **({"h": {"b": f2b(bw)}} if not isinstance(bw, str) else {}), **args})
+    # ---- samples of more than a thousand points (digamma arguments beyond any small table): independent evaluation with exact harmonic numbers,
+    #      psi(n) = -gamma + H_{n-1}; neighbour counts by brute force on the same distance routine (strict <, self excluded)
+    from scipy.spatial.distance import cdist as _cdist
+    EG = 0.57721566490153286061
+    for it in range(3 if thorough else 1):
+        N = int(rng.integers(1001, 1400)); k = int(rng.integers(1, 6)); metric = METRICS[it % 3]
+        W = rng.standard_normal((N, 3)) @ (rng.standard_normal((3, 3)) * 0.5 + np.eye(3))
+        # a tightly concentrated conditioning variable: neighbour counts in Z beyond 1000 as well
+        W[:, 2] = np.where(rng.random(N) < 0.97, 1e-3 * W[:, 2], W[:, 2] + 50.0)
+        X, Y, Z = W[:, :1], W[:, 1:2], W[:, 2:]
+        H = np.concatenate([[0.0], np.cumsum(1.0 / np.arange(1, N + 2))])     # H[m] = 1 + ... + 1/m
+        psi = lambda m: -EG + H[np.asarray(m) - 1]
+        v_mi = float(knn_mutual_information(X, Y, metric=metric, k=k))
+        eps = np.sort(_cdist(W[:, :2], W[:, :2], metric=metric), axis=1)[:, k]
+        nx = (_cdist(X, X, metric=metric) < eps[:, None]).sum(axis=1) - 1; ny = (_cdist(Y, Y, metric=metric) < eps[:, None]).sum(axis=1) - 1
+        r_mi = float(psi(k) + psi(N) - np.mean(psi(nx + 1) + psi(ny + 1)))
+        v_cmi = float(knn_conditional_mutual_information(X, Y, Z, metric=metric, k=k))
+        eps = np.sort(_cdist(W, W, metric=metric), axis=1)[:, k]
+        cnt = lambda B: (_cdist(B, B, metric=metric) < eps[:, None]).sum(axis=1) - 1
+        nxz, nyz, nz = cnt(W[:, [0, 2]]), cnt(W[:, [1, 2]]), cnt(Z)
+        r_cmi = float(psi(k) - np.mean(psi(nxz + 1) + psi(nyz + 1) - psi(nz + 1)))
+        case = {"N": N, "k": k, "metric": metric, "max_count": int(max(nx.max(), ny.max(), nz.max())), "X": X[:5], "note": "first five rows shown; data = seeded stream of this run"}
+        run.case("knn-large-N", [N, k, metric, float(W[0, 0])], True, sample={"N": N, "k": k, "metric": metric, "impl_mi": v_mi, "ref_mi": r_mi, "impl_cmi": v_cmi, "ref_cmi": r_cmi, "max_count": case["max_count"]})
+        for nm, v, r in (("MI", v_mi, r_mi), ("CMI", v_cmi, r_cmi)):
+            if not np.isfinite(v) or abs(v - r) > 1e-9:
+                run.prop_fail("kNN estimate on more than a thousand samples differs from psi(k)+psi(N)-<...> evaluated with exact harmonic numbers", case,
+                              {"estimator": "knn", "metric": metric, "conditional": nm == "CMI", "regime": "N>1000"}, {"impl": v, "reference": r})
+    # ---- settings history: the SAME sample evaluated again with another bandwidth / kernel-free rule / neighbour count in the same process
+    #      (a memo keyed on the data alone answers the second call from the first)
+    for it in range(10 if thorough else 4):
+        N = int(rng.integers(12, 40)); W = rng.standard_normal((N, 3))
+        X, Y, Z = W[:, :1], W[:, 1:2], W[:, 2:]
+        bws = ["silverman", 0.3, "scott", 1.1, 0.3]
+        fresh = {}
+        for b in bws:       # reference values: each setting on its own private copy of the data
+            Wc = W.copy()
+            fresh[str(b)] = (float(kde_entropy(Wc[:, :1].copy(), bandwidth=b)), float(kde_mutual_information(Wc[:, :1].copy(), Wc[:, 1:2].copy(), bandwidth=b)),
+                             float(kde_conditional_mutual_information(Wc[:, :1].copy(), Wc[:, 1:2].copy(), Wc[:, 2:].copy(), bandwidth=b)))
+        run.case("settings-history", [N, float(W[0, 0])], True)
+        for b in bws:       # now the same array objects, one setting after the other
+            got = (float(kde_entropy(X, bandwidth=b)), float(kde_mutual_information(X, Y, bandwidth=b)), float(kde_conditional_mutual_information(X, Y, Z, bandwidth=b)))
+            # 'fresh' itself was computed after other settings on equal data, so compare with the Float reference of the model as well (below, via reqs)
+            meta.append(("kde", {"N": N, "dx": 1, "dy": 1, "dz": 1, "bandwidth": b, "kind": "cmi", "X": X, "Y": Y, "Z": Z, "history": "same sample, settings in sequence"}, got[2]))
+            reqs.append({"op": "kde", "rule": b if isinstance(b, str) else "numeric", **({"h": {"b": f2b(float(b))}} if not isinstance(b, str) else {}), "X": fmat(X), "Y": fmat(Y), "Z": fmat(Z)})
+            meta.append(("kde", {"N": N, "dx": 1, "bandwidth": b, "kind": "entropy", "X": X, "Y": None, "Z": None, "history": "same sample, settings in sequence"}, got[0]))
+            reqs.append({"op": "kde", "rule": b if isinstance(b, str) else "numeric", **({"h": {"b": f2b(float(b))}} if not isinstance(b, str) else {}), "X": fmat(X)})
+            if got != fresh[str(b)]:
+                run.prop_fail("KDE estimate of a sample depends on which settings were used on the same sample earlier in the process", {"N": N, "bandwidth": b, "X": X, "Y": Y, "Z": Z},
+                              {"estimator": "kde", "clause": "purity", "history": "settings"}, {"in_sequence": got, "on_private_copies": fresh[str(b)]})
+        ks = [1, 3, 2, 3]
+        vals = [float(knn_conditional_mutual_information(X, Y, Z, metric="euclidean", k=kk)) for kk in ks] + [float(knn_mutual_information(X, Y, metric="chebyshev", k=2)), float(knn_mutual_information(X, Y, metric="euclidean", k=2))]
+        for kk, v in zip(ks, vals):
+            meta.append(("knn", {"N": N, "dx": 1, "dy": 1, "dz": 1, "k": kk, "metric": "euclidean", "X": X, "Y": Y, "Z": Z, "history": "same sample, settings in sequence"}, v))
+            reqs.append({"op": "knn", "metric": "euclidean", "k": kk, "X": mat(X), "Y": mat(Y), "Z": mat(Z)})
+        for mt, v in zip(("chebyshev", "euclidean"), vals[4:]):
+            meta.append(("knn", {"N": N, "dx": 1, "dy": 1, "dz": 0, "k": 2, "metric": mt, "X": X, "Y": Y, "Z": None, "history": "same sample, settings in sequence"}, v))
+            reqs.append({"op": "knn", "metric": mt, "k": 2, "X": mat(X), "Y": mat(Y)})
     # ---- history: same buffers refilled in place between two calls (kNN and KDE, with and without Z)
     from common import reuse_check
     for it in range(16 if thorough else 6):
